@@ -73,6 +73,35 @@ def load (j : JFile) : Except Refusal Genesis :=
   | some r => .error r
   | none => .ok (parse j)
 
+/-! ## Paths: a file that exists already is replaced, not patched
+
+`Save` is `os.WriteFile` (create or TRUNCATE): after it the path holds exactly the new document,
+whatever - longer or shorter - it held before.  `LoadGenesis` of a path that holds no file is refused. -/
+
+/-- the genesis files of a scenario, by path (newest entry first; the first entry of a path wins) -/
+abbrev Disk := List (Nat × JFile)
+
+/-- why `LoadGenesis` refuses -/
+inductive LoadErr where
+  | noFile                      -- nothing at the path
+  | refused (r : Refusal)       -- `Validate` refuses what the file holds
+  deriving DecidableEq, Repr
+
+def LoadErr.toString : LoadErr → String
+  | .noFile => "nofile" | .refused r => r.toString
+
+/-- `Genesis.Save` to a path -/
+def saveAt (d : Disk) (p : Nat) (g : Genesis) : Disk := (p, save g) :: d
+
+/-- `LoadGenesis` from a path -/
+def loadAt (d : Disk) (p : Nat) : Except LoadErr Genesis :=
+  match d.lookup p with
+  | none => .error .noFile
+  | some j =>
+    match load j with
+    | .ok g => .ok g
+    | .error r => .error (.refused r)
+
 /-- equality modulo the time location -/
 def normLoc (g : Genesis) : Genesis := { g with time := { g.time with locName := "" } }
 
